@@ -89,6 +89,11 @@ CLAIMS = {
    ref="§4 C16",
    note="Manually built edit.Range{a, b} pairs (12 sites) and all replacement texts are outside these rules.",
    technique="who-may-construct/who-may-call rules + Pos/End value-origin pairing on SSA"),
+ "C02": dict(
+   text="Decides structural necessary conditions of well-formed IR for all programs: Operands yields exactly the operand-holding fields of every instruction type (50 types, from the struct definitions); every removal of an instruction from a block detaches it from each operand's referrer list unless that operand is the lifted cell deleted in the same pass (per operand field); every locally created register instruction is typed on all paths before emit; control instructions are created only with the matching number of addEdge calls; φs get one slot per predecessor. Def-dominates-use and per-instruction typing of the builder's output are not decided.",
+   ref="§4 C02",
+   note="Two reviewed exemptions (jumpThreading's degenerate If→Jump, the ssa:deferstack call) are in the checker with reasons.",
+   technique="struct-field vs. method agreement (go/types + SSA) and must-pass-through path rules"),
 }
 
 NOT_APPLICABLE = {
